@@ -18,6 +18,6 @@ OResp(id, v, invalidates, lockey) ==
   /\ inval' = [k \in Keys |-> IF invalidates /\ (k = reqs[id] \/ k = lockey) THEN seq + 1 ELSE inval[k]]
   /\ UNCHANGED <<contacted, reqs>>
 CResp(id, hv) ==
-  /\ (id \in contacted \/ hv = NoVal \/ hv \notin DOMAIN vers \/ vers[hv].seq >= inval[reqs[id]])
+  /\ (IF id \in contacted \/ hv = NoVal \/ hv \notin DOMAIN vers THEN TRUE ELSE vers[hv].seq >= inval[reqs[id]])
   /\ UNCHANGED ivars
 ====
